@@ -53,6 +53,9 @@ pub struct World {
     /// name -> address
     pub addr: BTreeMap<String, String>,
     pub vamms: Vec<String>,
+    /// who was *given* each role by the deployment's own messages (inputs, not observed state):
+    /// the initial value of the specification's ghost role map
+    pub given: Value,
 }
 
 fn wrap(inner: Box<dyn Contract<Empty>>, kind: &'static str, rec: &Rec) -> Box<dyn Contract<Empty>> {
@@ -443,7 +446,7 @@ impl World {
                         fluctuation_limit_ratio: u(geti(vc, "fluct", 0)),
                         pricefeed: feed.to_string(),
                         margin_engine: None,
-                        insurance_fund: Some(ifund.to_string()),
+                        insurance_fund: if getb(vc, "ifund_none", false) { None } else { Some(ifund.to_string()) },
                     },
                     &[],
                     name.clone(),
@@ -536,7 +539,23 @@ impl World {
             }
             r.names.insert(denom.clone(), "collateral".to_string());
         }
+        let mut gv = serde_json::Map::new();
+        for (i, vc) in vlist.iter().enumerate() {
+            gv.insert(format!("vamm{}", i + 1), json!({
+                "owner": "owner",
+                "ifund": if getb(vc, "ifund_none", false) { "" } else { "ifund" },
+                "engine": if direct { "drv" } else { "engine" },
+            }));
+        }
+        let given = json!({
+            "vamm": Value::Object(gv),
+            "engine": {"owner": "owner", "pauser": gets(&e, "pauser", "owner")},
+            "ifund": {"owner": "owner", "engine": "engine"},
+            "fpool": {"owner": "owner"},
+            "feed": {"owner": "owner"},
+        });
         World {
+            given,
             app,
             rec,
             dep: dep.clone(),
@@ -634,6 +653,7 @@ impl World {
         let blk = self.app.block_info();
         let mut post = Map::new();
         post.insert("blk".into(), json!({"h": blk.height, "t": blk.time.seconds()}));
+        post.insert("given".into(), self.given.clone());
 
         // ---- vAMMs
         let mut vobj = Map::new();
